@@ -31,4 +31,5 @@ func HarnessC01Patterns() {
 			_ = pat.IsValidFor(du)
 		}
 	}
+	vx.Assert(true, "end of the harness reached (this harness only looks for panics; the assertion exists for the canary run)")
 }
